@@ -13,8 +13,8 @@ import vflib as V
 
 TIERS = {
     # family arguments per property and tier
-    "C01": {"quick": dict(fams="rt", iters=1500, shards=4, mc=[("MCRoundTrip", "MCRoundTrip_quick.cfg")]),
-            "thorough": dict(fams="rt", iters=30000, shards=16, thorough=True, mc=[("MCRoundTrip", "MCRoundTrip_thorough.cfg")])},
+    "C01": {"quick": dict(fams="rt,prim", iters=1500, shards=4, mc=[("MCRoundTrip", "MCRoundTrip_quick.cfg")]),
+            "thorough": dict(fams="rt,prim", iters=30000, shards=16, thorough=True, mc=[("MCRoundTrip", "MCRoundTrip_thorough.cfg")])},
     "C02": {"quick": dict(fams="ref,skip", iters=1500, shards=4, mc=[("MCRoundTrip", "MCRoundTrip_quick.cfg"), ("MCDecoder", "MCDecoder_quick.cfg")]),
             "thorough": dict(fams="ref,skip", iters=30000, shards=16, thorough=True,
                              mc=[("MCRoundTrip", "MCRoundTrip_thorough.cfg"), ("MCDecoder", "MCDecoder_quick.cfg")])},
